@@ -158,9 +158,17 @@ def showErr : Err → Sexp
 def showTrace (t : Trace) : Sexp :=
   .list [.atom "tr", showVal t.args, showVal t.ret, Sexp.ofInt t.score, showCMap t.choices]
 
+/-- `(addr-components… upd cmap)` / `(… regen sel)` / `(… empty)` as `((a b) upd c)`. -/
+def subReq : Sexp → Option (List String × SubReq)
+  | .list [addr, .atom "upd", c] => do pure (← strs addr, SubReq.update (← cmap c))
+  | .list [addr, .atom "regen", sel] => do pure (← strs addr, SubReq.regenerate (← SelD.term sel))
+  | .list [addr, .atom "empty"] => do pure (← strs addr, SubReq.empty)
+  | _ => none
+
 structure St where
   cur : Option Trace := none
   lastBwd : Option CMap := none
+  prog : Option Prog := none      -- set by `reclose`: later operations go through this function
 
 def badOp : Sexp := .list [.atom "err", .atom "bad-op"]
 def noTrace : Sexp := .list [.atom "err", .atom "no-trace"]
@@ -169,21 +177,27 @@ def showRes (r : Res) : Sexp :=
   .list [.atom "ok", showTrace r.tr, .list [.atom "w", Sexp.ofInt r.w],
          .list [.atom "bwd", showCMap r.bwd], .list [.atom "bwdok", Sexp.ofBool r.bwdOk]]
 
-def step (p : Prog) (st : St) (op : Sexp) : St × Sexp :=
+def step (p0 : Prog) (st : St) (op : Sexp) : St × Sexp :=
   let ds := concreteDS
+  let p := st.prog.getD p0
   match op with
+  | .list [.atom "reclose", ps] =>
+    -- the same trace handled through another closure of the same function (other stored arguments)
+    match prog ps with
+    | some q => ({ st with prog := some q }, .list [.atom "ok"])
+    | none => (st, badOp)
   | .list [.atom "sim", seed, a] =>
     match seed.nat?, val a with
     | some s, some a =>
       match simulate ds p [s] a with
-      | .ok t => ({ cur := some t }, .list [.atom "ok", showTrace t])
+      | .ok t => ({ st with cur := some t, lastBwd := none }, .list [.atom "ok", showTrace t])
       | .error e => (st, showErr e)
     | _, _ => (st, badOp)
   | .list [.atom "gen", seed, c, a] =>
     match seed.nat?, cmap c, val a with
     | some s, some c, some a =>
       match generate ds p [s] c a with
-      | .ok (t, w) => ({ cur := some t }, .list [.atom "ok", showTrace t, .list [.atom "w", Sexp.ofInt w]])
+      | .ok (t, w) => ({ st with cur := some t, lastBwd := none }, .list [.atom "ok", showTrace t, .list [.atom "w", Sexp.ofInt w]])
       | .error e => (st, showErr e)
     | _, _, _ => (st, badOp)
   | .list [.atom "assess", c, a] =>
@@ -204,7 +218,7 @@ def step (p : Prog) (st : St) (op : Sexp) : St × Sexp :=
     match st.cur, seed.nat?, cmap c, val a, ch.bool? with
     | some t, some s, some c, some a, some ch =>
       match update ds p [s] t c a ch with
-      | .ok r => ({ cur := some r.tr, lastBwd := some r.bwd }, showRes r)
+      | .ok r => ({ st with cur := some r.tr, lastBwd := some r.bwd }, showRes r)
       | .error e => (st, showErr e)
     | none, _, _, _, _ => (st, noTrace)
     | _, _, _, _, _ => (st, badOp)
@@ -212,14 +226,14 @@ def step (p : Prog) (st : St) (op : Sexp) : St × Sexp :=
     match st.cur, st.lastBwd, seed.nat?, val a, ch.bool? with
     | some t, some c, some s, some a, some ch =>
       match update ds p [s] t c a ch with
-      | .ok r => ({ cur := some r.tr, lastBwd := some r.bwd }, showRes r)
+      | .ok r => ({ st with cur := some r.tr, lastBwd := some r.bwd }, showRes r)
       | .error e => (st, showErr e)
     | _, _, _, _, _ => (st, noTrace)
   | .list [.atom "regen", seed, sel, a] =>
     match st.cur, seed.nat?, SelD.term sel, val a with
     | some t, some s, some sel, some a =>
       match regenerate ds p [s] t sel a with
-      | .ok r => ({ cur := some r.tr, lastBwd := some r.bwd }, showRes r)
+      | .ok r => ({ st with cur := some r.tr, lastBwd := some r.bwd }, showRes r)
       | .error e => (st, showErr e)
     | none, _, _, _ => (st, noTrace)
     | _, _, _, _ => (st, badOp)
@@ -235,7 +249,7 @@ def step (p : Prog) (st : St) (op : Sexp) : St × Sexp :=
     match st.cur, seed.nat?, val a, nc.bool?, ch.bool? with
     | some t, some s, some a, some nc, some ch =>
       match emptyRequest ds p [s] t a nc ch with
-      | .ok r => ({ cur := some r.tr, lastBwd := some r.bwd }, showRes r)
+      | .ok r => ({ st with cur := some r.tr, lastBwd := some r.bwd }, showRes r)
       | .error e => (st, showErr e)
     | none, _, _, _, _ => (st, noTrace)
     | _, _, _, _, _ => (st, badOp)
@@ -251,7 +265,7 @@ def step (p : Prog) (st : St) (op : Sexp) : St × Sexp :=
     match st.cur, seed.nat?, k.nat?, cmap c with
     | some t, some s, some k, some c =>
       match editIndex ds .upd p [s] t k c .none with
-      | .ok r => ({ cur := some r.tr, lastBwd := some r.bwd }, showRes r)
+      | .ok r => ({ st with cur := some r.tr, lastBwd := some r.bwd }, showRes r)
       | .error e => (st, showErr e)
     | none, _, _, _ => (st, noTrace)
     | _, _, _, _ => (st, badOp)
@@ -259,10 +273,18 @@ def step (p : Prog) (st : St) (op : Sexp) : St × Sexp :=
     match st.cur, seed.nat?, k.nat?, SelD.term sel with
     | some t, some s, some k, some sel =>
       match editIndex ds .regen p [s] t k [] sel with
-      | .ok r => ({ cur := some r.tr, lastBwd := some r.bwd }, showRes r)
+      | .ok r => ({ st with cur := some r.tr, lastBwd := some r.bwd }, showRes r)
       | .error e => (st, showErr e)
     | none, _, _, _ => (st, noTrace)
     | _, _, _, _ => (st, badOp)
+  | .list [.atom "sreq", seed, .list entries, a, ch] =>
+    match st.cur, seed.nat?, entries.mapM subReq, val a, ch.bool? with
+    | some t, some s, some reqs, some a, some ch =>
+      match staticRequest ds p [s] t (reqTable reqs) a ch with
+      | .ok r => ({ st with cur := some r.tr, lastBwd := some r.bwd }, showRes r)
+      | .error e => (st, showErr e)
+    | none, _, _, _, _ => (st, noTrace)
+    | _, _, _, _, _ => (st, badOp)
   | .list [.atom "proj", sel] =>
     match st.cur, SelD.term sel with
     | some t, some sel =>
